@@ -145,6 +145,10 @@ func DecodeFrom(reader io.Reader) (*Pointer, io.Reader, error) {
 		return EmptyPointer(), contents, nil
 	}
 
+	if len(buf) >= blobSizeCutoff {
+		return nil, contents, errors.NewNotAPointerError(errors.New(tr.Tr.Get("blob size exceeds Git LFS pointer size cutoff")))
+	}
+
 	p, err := decodeKV(bytes.TrimSpace(buf))
 	if err == nil && p != nil {
 		p.Canonical = p.Encoded() == string(buf)
